@@ -1253,9 +1253,14 @@ fn run_history(id: &str, mode: &str, body: &str, pad: usize, out: &mut impl Writ
         let marker = 0u8;
         w_.sp_base = &marker as *const u8 as usize;
         w_.sp_min = w_.sp_base;
+        // every call that gives up a strong handle is a drop in the sense of C03
         let dropped_target: Option<u32> = match a {
-            Act::Drop(r) if *r < NREGS => match unsafe { &*reg(*r) } {
+            Act::Drop(r) | Act::MakeMut(r) if *r < NREGS => match unsafe { &*reg(*r) } {
                 Reg::Strong(_, id) => Some(*id),
+                _ => None,
+            },
+            Act::DecS(r) if *r < NREGS => match unsafe { &*reg(*r) } {
+                Reg::Raw(_, id) => Some(*id),
                 _ => None,
             },
             _ => None,
